@@ -154,7 +154,7 @@ class VectorGradientMixin(GradientMixin):
 
     @staticmethod
     def _negative_nmll_laplace_derivative(fitness_vector, fitness_partials):
-        n = len(fitness_vector)
+        n = np.size(fitness_vector)
         b = 1 / np.sqrt(n)
         mse = np.mean(np.square(fitness_vector))
         dmse = 2 * np.mean(fitness_vector * fitness_partials, axis=1)
